@@ -349,6 +349,27 @@ theorem runFrom_maximal (c : Nat) (l : List Tx) : ∀ y ∈ (runFrom c l).2.head
       simp only [List.length_cons]; omega
     · rename_i h; intro y hy; simp at hy; subst hy; simpa using h
 
+theorem take_runFrom (c : Nat) (l : List Tx) : l.take (runFrom c l).1.length = (runFrom c l).1 := by
+  have h := runFrom_append c l
+  have := List.take_left' (l₁ := (runFrom c l).1) (l₂ := (runFrom c l).2) rfl
+  rwa [h] at this
+
+theorem drop_runFrom (c : Nat) (l : List Tx) : l.drop (runFrom c l).1.length = (runFrom c l).2 := by
+  have h := runFrom_append c l
+  have := List.drop_left' (l₁ := (runFrom c l).1) (l₂ := (runFrom c l).2) rfl
+  rwa [h] at this
+
+/-- the lowest entry of a sorted list, if it sits at `c`, belongs to the run from `c` -/
+theorem mem_runFrom_head {c : Nat} {l : List Tx} (hs : Sorted l) (hge : ∀ t ∈ l, c ≤ t.nonce) {e : Tx} (he : e ∈ l)
+    (hen : e.nonce = c) : e ∈ (runFrom c l).1 := by
+  cases l with
+  | nil => cases he
+  | cons x xs =>
+    have hx := hge x List.mem_cons_self
+    rcases List.mem_cons.mp he with rfl | he'
+    · simp [runFrom, hen]
+    · have := (sorted_cons.mp hs).1 e he'; omega
+
 theorem runFrom_of_isRun {c : Nat} {l : List Tx} (h : IsRun c l) : runFrom c l = (l, []) := by
   induction l generalizing c with
   | nil => simp [runFrom]
@@ -567,6 +588,8 @@ structure FilterSpec (l : TxL) (c g : Nat) (r : List Tx × List Tx × TxL) : Pro
   nonstrict  : l.strict = false → r.2.1 = []
   run        : l.strict = true → ∀ c0, IsRun c0 l.items → IsRun c0 r.2.2.items
   cover      : ∀ t ∈ l.items, t ∈ r.2.2.items ∨ t ∈ r.1 ∨ t ∈ r.2.1
+  rem_unpay  : ∀ t ∈ r.1, unpayable c g t = true
+  inv_low    : ∀ t ∈ r.2.1, ∃ u ∈ r.1, u.nonce < t.nonce
 
 theorem TxL.filter_spec (l : TxL) (c g : Nat) : FilterSpec l c g (l.filter c g) := by
   unfold TxL.filter
@@ -577,7 +600,8 @@ theorem TxL.filter_spec (l : TxL) (c g : Nat) : FilterSpec l c g (l.filter c g) 
             sorted := id, strict := rfl, caps := id
             rem_sub := by simp, inv_sub := by simp, inv_above := by simp, inv_disj := by simp
             inv_sorted := fun _ => Sorted.nil, nonstrict := fun _ => rfl, run := fun _ _ h => h
-            cover := fun t ht => Or.inl ht }
+            cover := fun t ht => Or.inl ht
+            rem_unpay := by simp, inv_low := by simp }
   · by_cases hstrict : (l.strict && !(l.items.filter (unpayable c g)).isEmpty) = true
     · simp only [hstrict, if_true]
       simp only [Bool.and_eq_true, Bool.not_eq_true', List.isEmpty_eq_false_iff] at hstrict
@@ -619,7 +643,13 @@ theorem TxL.filter_spec (l : TxL) (c g : Nat) : FilterSpec l c g (l.filter c g) 
           · simp only [Bool.not_eq_true] at hbad
             by_cases hlow : lowest (l.items.filter (unpayable c g)) < t.nonce
             · exact Or.inr (Or.inr (List.mem_filter.mpr ⟨List.mem_filter.mpr ⟨ht, by simp [hbad]⟩, by simpa using hlow⟩))
-            · exact Or.inl (List.mem_filter.mpr ⟨List.mem_filter.mpr ⟨ht, by simp [hbad]⟩, by simpa using hlow⟩) }
+            · exact Or.inl (List.mem_filter.mpr ⟨List.mem_filter.mpr ⟨ht, by simp [hbad]⟩, by simpa using hlow⟩)
+        rem_unpay := fun t ht => (List.mem_filter.mp ht).2
+        inv_low := fun t ht => by
+          obtain ⟨b, hb, hbl⟩ := lowest_mem hne
+          have h1 := List.mem_filter.mp ht
+          have : lowest (l.items.filter (unpayable c g)) < t.nonce := by simpa using h1.2
+          exact ⟨b, hb, by omega⟩ }
     · simp only [hstrict, Bool.false_eq_true, if_false]
       have hkept : ∀ t, t ∈ l.items.filter (fun t => !unpayable c g t) → t ∈ l.items ∧ unpayable c g t = false := by
         intro t ht
@@ -652,7 +682,9 @@ theorem TxL.filter_spec (l : TxL) (c g : Nat) : FilterSpec l c g (l.filter c g) 
           by_cases hbad : unpayable c g t = true
           · exact Or.inr (Or.inl (List.mem_filter.mpr ⟨ht, hbad⟩))
           · simp only [Bool.not_eq_true] at hbad
-            exact Or.inl (List.mem_filter.mpr ⟨ht, by simp [hbad]⟩) }
+            exact Or.inl (List.mem_filter.mpr ⟨ht, by simp [hbad]⟩)
+        rem_unpay := fun t ht => (List.mem_filter.mp ht).2
+        inv_low := by simp }
 
 /-! ### txList.Remove -/
 
@@ -667,6 +699,9 @@ structure RemoveSpec (l : TxL) (t : Tx) (r : Bool × List Tx × TxL) : Prop wher
   sorted   : Sorted l.items → Sorted r.2.2.items
   kept_strict : l.strict = true → r.1 = true → r.2.2.items = l.items.filter (fun u => decide (u.nonce < t.nonce))
   kept_loose  : l.strict = false → r.2.1 = [] ∧ (r.1 = true → r.2.2.items = l.items.filter (fun u => !decide (u.nonce = t.nonce)))
+  inv_all  : l.strict = true → r.1 = true → ∀ u ∈ l.items, t.nonce < u.nonce → u ∈ r.2.1
+  kept_all : l.strict = false → ∀ u ∈ l.items, u.nonce ≠ t.nonce → u ∈ r.2.2.items
+  loose_items : l.strict = false → r.2.2.items = l.items.filter (fun u => !decide (u.nonce = t.nonce))
 
 theorem TxL.remove_spec (l : TxL) (t : Tx) : RemoveSpec l t (l.remove t) := by
   unfold TxL.remove
@@ -676,7 +711,11 @@ theorem TxL.remove_spec (l : TxL) (t : Tx) : RemoveSpec l t (l.remove t) := by
             kept_sub := fun u hu => ⟨hu, getN_none.mp hg u hu⟩
             strict := rfl, caps_eq := ⟨rfl, rfl⟩, inv_sub := by simp, inv_sorted := fun _ => Sorted.nil
             sorted := id
-            kept_strict := by simp, kept_loose := fun _ => ⟨rfl, by simp⟩ }
+            kept_strict := by simp, kept_loose := fun _ => ⟨rfl, by simp⟩
+            inv_all := by simp, kept_all := fun _ u hu _ => hu
+            loose_items := fun _ => by
+              symm; rw [List.filter_eq_self]
+              intro u hu; simpa using getN_none.mp hg u hu }
   | some o =>
     simp only
     split
@@ -698,7 +737,10 @@ theorem TxL.remove_spec (l : TxL) (t : Tx) : RemoveSpec l t (l.remove t) := by
               inv_sorted := fun hs => (hs.filter _).filter _
               sorted := fun hs => (hs.filter _).filter _
               kept_strict := fun _ _ => hf
-              kept_loose := fun h => by rw [hst] at h; cases h }
+              kept_loose := fun h => by rw [hst] at h; cases h
+              inv_all := fun _ _ u hu hlt => List.mem_filter.mpr ⟨List.mem_filter.mpr ⟨hu, by simp; omega⟩, by simpa using hlt⟩
+              kept_all := fun h => by rw [hst] at h; cases h
+              loose_items := fun h => by rw [hst] at h; cases h }
     · rename_i hst
       exact { notfound := by simp, found := fun _ => by rw [hg]; rfl
               kept_sub := fun u hu => by
@@ -707,6 +749,9 @@ theorem TxL.remove_spec (l : TxL) (t : Tx) : RemoveSpec l t (l.remove t) := by
               strict := rfl, caps_eq := ⟨rfl, rfl⟩, inv_sub := by simp, inv_sorted := fun _ => Sorted.nil
               sorted := fun hs => hs.filter _
               kept_strict := fun h => by rw [h] at hst; exact absurd rfl hst
-              kept_loose := fun _ => ⟨rfl, fun _ => rfl⟩ }
+              kept_loose := fun _ => ⟨rfl, fun _ => rfl⟩
+              inv_all := fun h => by rw [h] at hst; exact absurd rfl hst
+              kept_all := fun _ u hu hne => List.mem_filter.mpr ⟨hu, by simpa using hne⟩
+              loose_items := fun _ => rfl }
 
 end Aqv.TxPool
